@@ -1,5 +1,5 @@
 """C15 pool_size reports and enforces the configured maximum when changed."""
-from asyncio_taskpool import TaskPool
+from asyncio_taskpool import SimpleTaskPool, TaskPool
 from engine.prog import Interp, parts_product
 from engine.spec import Family
 from engine.world import Excluded, World
@@ -23,16 +23,20 @@ def _min(a, b):
     return a if a < b else b
 
 
-def tpl_size(old, d, op, new, d2, _twin=False):
+def tpl_size(old, d, op, new, d2, simple=0, _twin=False):
     w = World("c15.size")
     code = 0
     reached = False
     try:
         # old == -1: the pool is created with the default (unbounded) size
-        pool = TaskPool() if old == -1 else TaskPool(pool_size=old)
+        if simple == 1:
+            pool = SimpleTaskPool(w.worker(0)) if old == -1 else SimpleTaskPool(w.worker(0), pool_size=old)
+        else:
+            pool = TaskPool() if old == -1 else TaskPool(pool_size=old)
         it = Interp(w, pool, cbkind=0)
+        spawn = it.start if simple == 1 else it.apply
         try:
-            it.apply(d)
+            spawn(d)
             w.settle()
             k = w.live                       # running; d - k are waiting for room
             if k != (d if old == -1 else _min(old, d)):
@@ -87,7 +91,7 @@ def tpl_size(old, d, op, new, d2, _twin=False):
                             code = 1506
                     if not code:
                         live0 = w.live
-                        it.apply(d2)
+                        spawn(d2)
                         w.settle()
                         room = new - live0 if new > live0 else 0
                         waiting = (d - 1 if k >= 1 else d) - live0
@@ -104,10 +108,45 @@ def tpl_size(old, d, op, new, d2, _twin=False):
         w.close(code)
 
 
+def tpl_reassign(old, k, x, y, d2, _twin=False):
+    """History first, then the part that must hold whatever came before: k tasks run, pool_size = x is assigned
+    meanwhile (that assignment itself is the open finding T6 and is not judged), all tasks finish, and then - on the
+    idle pool - pool_size = y is assigned: y is what is reported and what the next request is held to."""
+    w = World("c15.reassign")
+    code = 0
+    try:
+        pool = TaskPool(pool_size=old)
+        it = Interp(w, pool, cbkind=0)
+        it.apply(k)
+        w.settle()
+        w.op("set-while-running", x)
+        pool.pool_size = x
+        w.drain()
+        if w.live or pool.num_running:
+            return 0          # (cannot happen for k <= old)
+        w.op("set-idle", y)
+        pool.pool_size = y
+        if pool.pool_size != y:
+            code = 1501
+        before = len(w.W)
+        it.apply(d2)
+        w.settle()
+        if not code and w.live != _min(y, d2):
+            code = 1507
+        if _twin and not code and x == y and k >= 1 and d2 > y:
+            code = 77
+        return code
+    finally:
+        w.close(code)
+
+
 def families(tier):
     thorough = tier == "thorough"
-    P = ["old", "d", "op", "new", "d2"]
+    P = ["old", "d", "op", "new", "d2", "simple"]
     dm = 4 if thorough else 3
-    pre = ["old >= -1", "0 <= d <= %d" % dm, "0 <= op <= 1", "0 <= d2 <= 3", "op == 1 or (new == 0 and d2 == 0)"]
-    return [Family(name="size", fn="tpl_size", params=P, pre=pre, parts=parts_product(d=range(dm + 1), op=(0, 1)),
-                   twin_pre=["d == 0", "op == 1"], twin_args=[1, 0, 1, 3, 2])]
+    pre = ["old >= -1", "0 <= d <= %d" % dm, "0 <= op <= 1", "0 <= d2 <= 3", "op == 1 or (new == 0 and d2 == 0)", "0 <= simple <= 1"]
+    return [Family(name="size", fn="tpl_size", params=P, pre=pre, parts=parts_product(d=range(dm + 1), op=(0, 1), simple=(0, 1)),
+                   twin_pre=["d == 0", "op == 1"], twin_args=[1, 0, 1, 3, 2, 0]),
+            Family(name="reassign", fn="tpl_reassign", params=["old", "k", "x", "y", "d2"],
+                   pre=["1 <= old", "1 <= k <= 3", "k <= old", "x >= 0", "y >= 0", "0 <= d2 <= 3"],
+                   parts=parts_product(k=(1, 2, 3)), twin_pre=["k == 2"], twin_args=[3, 2, 1, 1, 3])]
